@@ -180,7 +180,7 @@ def run_S(ctx, ns, run, inp, f, cache=None):
     threads = []
     ns["config"] = values.Rec("config", NUM_THREADS=inp.num_threads)
     ns["set_num_threads"] = lambda n: threads.append(("numba", n))
-    ns["get_fft_manager"] = lambda num_threads=1, cache_keepalive=30: threads.append(("fft", num_threads))
+    ns["get_fft_manager"] = lambda num_threads=1, cache_keepalive=30, **kw: threads.append(("fft", num_threads, kw))
     out = harness.call(run, f, raises=(ValueError, IndexError), **inp.call_kwargs(cache))
     return out, log, threads
 
